@@ -47,6 +47,8 @@ def cases(tier, seed):
 def realise(case, qenv):
   """Builds the instance; PTS placeholders become a scale taken from a first call."""
   kw = dict(case["kw"])
+  if kw.get("alpha") == qlattice.NP_ALPHA:
+    kw["alpha"] = np.float32(2.0)
   if kw.get("post_training_scale") == qlattice.PTS:
     kw0 = {k: v for k, v in kw.items() if k != "post_training_scale"}
     q0 = qenv.build({"cls": case["cls"], "kw": kw0})
